@@ -662,7 +662,7 @@ impl Property for C06 {
     }
 
     fn budget(tier: Tier) -> u64 {
-        tier.pick(150_000, 1_500_000)
+        tier.pick(150_000, 120_000)
     }
 
     fn case_timeout_s(_tier: Tier) -> u64 {
